@@ -25,6 +25,14 @@ PartialOrder == /\ \A a \in RectsOk(3) : Cov(a, a)
                 /\ \A a, b \in RectsOk(3) : (Cov(a, b) /\ Cov(b, a)) => a = b
                 /\ \A a, b, c \in RectsOk(2) : (Cov(a, b) /\ Cov(b, c)) => Cov(a, c)
 LexDiffers == \E a, b \in RectsOk(3) : LexCov(a, b) /\ ~Cov(a, b)
+\* pictures whose pixel size is not a whole number of 8 x 16 cells, at the same and at neighbouring cells: covering is a
+\* relation on PIXEL rectangles, not on the cells a picture touches
+Origins == { <<0, 0>>, <<1, 0>>, <<0, 1>> }
+PxSizes == { <<12, 12>>, <<14, 6>>, <<5, 6>>, <<3, 12>>, <<8, 16>>, <<16, 16>>, <<9, 17>> }
+SubCell == { <<o, z>> : o \in Origins, z \in PxSizes }
 Emit == /\ \A p \in Pairs : PrintT(<<"WITNESS", ToJson([rect |-> 0, k |-> 2, rects |-> p, hist |-> Hist(2)])>>)
+        /\ \A a \in SubCell, b \in SubCell :
+              PrintT(<<"WITNESS", ToJson([rect |-> 0, k |-> 2, rects |-> << <<a[1][1], a[1][2], a[1][1], a[1][2]>>, <<b[1][1], b[1][2], b[1][1], b[1][2]>> >>,
+                                           px |-> <<a[2], b[2]>>, hist |-> Hist(2)])>>)
         /\ \A t \in Triples : PrintT(<<"WITNESS", ToJson([rect |-> 0, k |-> 3, rects |-> t, hist |-> Hist(3)])>>)
 =============================================================================
